@@ -15,6 +15,7 @@
   `write_zero_never_returns`.
 -/
 import JsonC.Lemmas.FdIO
+import JsonC.Lemmas.TranslatedFd
 
 namespace JsonC.FdIO
 open JsonC Generated FdSpec
